@@ -184,6 +184,7 @@ RULE = (
     "bound active at the oracle optimum, or a target below the baseline, or an under-determined system."
     " A sixth of the under-determined systems have two sources with proportional captures; targets also as nested lists; C / Fortran / strided memory layouts."
     " Every case also fits a whole-number problem (int64 targets, K and baseline) and the same numbers as floats: equal intensities. 'dark' rows equal the baseline exactly. With batch_size > 1 the accuracy term includes sqrt(relative gap x objective of the whole call)."
+    " A sixth of the systems have mixed-sign lower bounds."
 )
 
 PROP = Prop(
